@@ -174,7 +174,9 @@ def judge_history(case, collect=True):
                     rec["fails"].append(("imports-do-not-cover-body", f"model #{si} ({label}): {b}"))
                 got, rt = C14.run_model(m, {"x": probe})
                 rec["runtime"] = rt
-                if got is None:
+                if got is None and rt.startswith("aborted"):
+                    rec["fails"].append(("runtime-aborted", f"model #{si} ({label}) of the history: {rt[:260]}"))
+                elif got is None:
                     if rt.startswith("invalid") or not rec["fails"]:
                         rec["fails"].append(("model-not-runnable", f"model #{si} ({label}) of the history: {rt[:260]}"))
                 else:
